@@ -57,11 +57,6 @@ impl BasePath {
         Url::from_file_path(self.dir.join(key.to_path())).expect("to work")
     }
 
-    fn name_to_url(&self, key: &str) -> Url {
-        Url::from_file_path(self.dir.join(format!("{}.md", model::strip_md(key))))
-            .expect("to work")
-    }
-
     fn url_to_key(&self, url: &Url) -> Key {
         let in_library = url.to_file_path().ok().and_then(|path| {
             path.strip_prefix(&self.dir).ok().map(|relative| {
@@ -401,25 +396,24 @@ impl Server {
         &self,
         params: RenameParams,
     ) -> Result<Option<WorkspaceEdit>, ResponseError> {
-        if self
-            .database
-            .graph()
-            .maybe_key(&params.new_name.clone().into())
-            .is_some()
-        {
-            return Result::Err(ResponseError {
-                code: 1,
-                message: format!("The file name {} is already taken", params.new_name),
-                data: None,
-            });
-        }
-
         let relative_to = &params
             .text_document_position
             .text_document
             .uri
             .to_key(&self.base_path)
             .parent();
+
+        // the placeholder of prepare-rename is the url of the link as written, so the new name
+        // is read, like that url, from the directory of the note that holds the cursor
+        let new_key = Key::from_rel_link_url(&params.new_name, relative_to);
+
+        if self.database.graph().maybe_key(&new_key).is_some() {
+            return Result::Err(ResponseError {
+                code: 1,
+                message: format!("The file name {} is already taken", params.new_name),
+                data: None,
+            });
+        }
 
         Result::Ok(
             self.parser(
@@ -453,29 +447,25 @@ impl Server {
 
                 let mut patch = self.database.graph().new_patch();
 
-                patch.move_metadata(&key, &params.new_name.clone().into());
+                patch.move_metadata(&key, &new_key);
 
-                patch
-                    .build_key(&params.new_name.clone().into())
-                    .insert_from_iter(
-                        self.database
-                            .graph()
-                            .collect(&key)
-                            .change_key(&key, &params.new_name.clone().into())
-                            .iter(),
-                    );
+                patch.build_key(&new_key).insert_from_iter(
+                    self.database
+                        .graph()
+                        .collect(&key)
+                        .change_key(&key, &new_key)
+                        .iter(),
+                );
 
                 affected_keys.iter().for_each(|affected_key| {
                     patch.build_key(&affected_key).insert_from_iter(
                         self.database
                             .graph()
                             .collect(&affected_key)
-                            .change_key(&key, &params.new_name.clone().into())
+                            .change_key(&key, &new_key)
                             .iter(),
                     );
                 });
-
-                let new_key = Key::from_rel_link_url(&params.new_name, relative_to);
 
                 let document_changes = affected_keys
                     .into_iter()
@@ -492,10 +482,9 @@ impl Server {
                         .to_full_url(&self.base_path)
                         .to_delete_file_op()])
                     .chain(vec![
-                        params.new_name.to_url(&self.base_path).to_create_file_op(),
-                        params
-                            .new_name
-                            .to_url(&self.base_path)
+                        new_key.to_full_url(&self.base_path).to_create_file_op(),
+                        new_key
+                            .to_full_url(&self.base_path)
                             .to_override_new_file_op(
                                 &self.base_path,
                                 patch.export_key(&new_key).expect("to have key"),
